@@ -213,6 +213,22 @@ fn history(src: &mut Src, st: &mut Stats, _env: &Env) -> CaseResult {
                 "n", "s", "xs", "o", "z", "`1`", "'lit'", "xs[*]", "objs[*].a", "&n", "&objs[0].a", "xs[0]", "`[1, 2]`", "&@", "`[[1, 2], [\"x\"]]`", "`[[1], [2, 3]]`", "`[[\"x\"], [1]]`",
                 "`[\"a\", [1]]`", "`[[1], \"a\", [\"b\"]]`", "`[[1], [2], [true]]`", "`[1, 2, \"x\"]`", "`[]`", "`[[]]`", "[xs, xs]", "[xs, [s]]",
             ];
+            // long array literals, uniform or with one member of another kind near the end
+            let long_texts: Vec<String> = {
+                let n = 8 + src.below(40);
+                let bad_at = match src.below(4) {
+                    0 => n,
+                    1 => n - 1,
+                    2 => n - 1 - src.below(8),
+                    _ => src.below(n),
+                };
+                let nums: Vec<String> = (0..n).map(|i| if i == bad_at { "\"x\"".to_string() } else { i.to_string() }).collect();
+                let arrs: Vec<String> = (0..n).map(|i| if i == bad_at { "[\"x\"]".to_string() } else { format!("[{}]", i) }).collect();
+                vec![format!("`[{}]`", nums.join(", ")), format!("`[{}]`", arrs.join(", "))]
+            };
+            let mut plain: Vec<&str> = plain.to_vec();
+            plain.extend(long_texts.iter().map(|x| x.as_str()));
+            plain.extend(long_texts.iter().map(|x| x.as_str()));
             let with_calls = ["n", "s", "xs", "not_null(s)", "not_null(z, n)", "not_null(not_null(xs))", "`1`", "&n", "not_null(z, z, o)", "xs[0]"];
             let arg_texts: Vec<&str> = (0..nargs).map(|_| if nn_builtin && src.chance(100) { *src.pick(&with_calls) } else { *src.pick(&plain) }).collect();
             let mut expr = format!("{}({})", name, arg_texts.join(", "));
